@@ -802,6 +802,11 @@ class ConstructedPayloadDecoderBase(AbstractConstructedPayloadDecoder):
                                 namedType.openType.name
                             )
 
+                            if not governingValue.isValue:
+                                # absent OPTIONAL governing component:
+                                # nothing to resolve the open type by
+                                continue
+
                             try:
                                 openType = openTypes[governingValue]
 
@@ -1026,6 +1031,11 @@ class ConstructedPayloadDecoderBase(AbstractConstructedPayloadDecoder):
                             governingValue = asn1Object.getComponentByName(
                                 namedType.openType.name
                             )
+
+                            if not governingValue.isValue:
+                                # absent OPTIONAL governing component:
+                                # nothing to resolve the open type by
+                                continue
 
                             try:
                                 openType = openTypes[governingValue]
